@@ -51,6 +51,7 @@ type Case struct {
 	Orig    string `json:"orig,omitempty"`     // original plaintext a tampered case must not yield
 	Expect  string `json:"expect,omitempty"`
 	Got     string `json:"got,omitempty"`
+	Seq     []Case `json:"seq,omitempty"` // family "seq": the calls, in order
 }
 
 func hx(b []byte) string { return hex.EncodeToString(b) }
@@ -144,6 +145,12 @@ func cp(b []byte) []byte {
 }
 
 func callEnc(fn, alg string, key jwk.Key, nonce, pt, ad []byte) outcome {
+	o := callEnc0(fn, alg, key, nonce, pt, ad)
+	ledger.after(symCaseOf(fn, alg, key, nonce, pt, nil, ad), map[string][]byte{"ciphertext": o.a, "tag": o.b})
+	return o
+}
+
+func callEnc0(fn, alg string, key jwk.Key, nonce, pt, ad []byte) outcome {
 	return guarded(func() outcome {
 		var ct, tag []byte
 		var err error
@@ -161,6 +168,12 @@ func callEnc(fn, alg string, key jwk.Key, nonce, pt, ad []byte) outcome {
 }
 
 func callDec(fn, alg string, key jwk.Key, nonce, ct, tag, ad []byte) outcome {
+	o := callDec0(fn, alg, key, nonce, ct, tag, ad)
+	ledger.after(symCaseOf(fn, alg, key, nonce, ct, tag, ad), map[string][]byte{"plaintext": o.a})
+	return o
+}
+
+func callDec0(fn, alg string, key jwk.Key, nonce, ct, tag, ad []byte) outcome {
 	return guarded(func() outcome {
 		var pt []byte
 		var err error
@@ -657,6 +670,16 @@ func (h *H) sizeSweeps() {
 				continue
 			}
 			one("oct", jkOK, okKey, okNonce, pt, vct, h.rng.Bytes(tl), "tagsize")
+		}
+		if s.tagLen > 0 && valid.class == "ok" {
+			// a PREFIX of the genuine tag (truncated tag) and the genuine tag plus extra bytes
+			for tl := 0; tl <= s.tagLen+4; tl++ {
+				if tl == s.tagLen {
+					continue
+				}
+				t := append(cp(vtag), 0, 0, 0, 0)[:tl]
+				one("oct", jkOK, okKey, okNonce, pt, vct, t, "tagsize-genuine-prefix")
+			}
 		}
 		for _, pl := range []int{1, 7, 8, 9, 15, 17, 24, 31, 33, 40} {
 			one("oct", jkOK, okKey, okNonce, h.rng.Bytes(pl), h.rng.Bytes(pl), vtag, "datalen")
@@ -1231,6 +1254,13 @@ func (h *H) replay(path string) {
 			return
 		}
 	}
+	if fam, _ := generic["family"].(string); fam == "seq" {
+		var sc Case
+		if err := json.Unmarshal(rf.Case, &sc); err == nil {
+			h.replaySeq(sc)
+		}
+		return
+	}
 	var c Case
 	if err := json.Unmarshal(rf.Case, &c); err != nil {
 		h.res.Note("replay: case is not a C03 case: " + err.Error())
@@ -1326,6 +1356,7 @@ func main() {
 	res := lib.NewResult(rule)
 	h := &H{f: f, res: res, rng: lib.NewRand(f.Seed*0x9e3779b97f4a7c15 + 0xC03)}
 	h.keys = makeForeignKeys()
+	ledger.res = res
 	if f.Replay != "" {
 		h.replay(f.Replay)
 		h.compareWithModel()
@@ -1339,6 +1370,13 @@ func main() {
 		rounds = 6
 	}
 	for r := 0; r < rounds; r++ {
+		// C03_SKIP=batches,concurrent is for self-tests of the remaining monitors only
+		if skip := os.Getenv("C03_SKIP"); !strings.Contains(skip, "batches") {
+			h.batches()
+		}
+		if skip := os.Getenv("C03_SKIP"); !strings.Contains(skip, "concurrent") {
+			h.concurrent()
+		}
 		h.roundTrips()
 		h.sizeSweeps()
 		h.junkNames()
